@@ -446,3 +446,66 @@ def explore(stmts, atoms, names=(), upto=None, max_paths=20000, exceptions=False
 def final_assignments(stmts, atoms, names, upto=None, max_paths=5000):
     """(terminal kind, {name: last assigned value expression}) per feasible path - see explore()"""
     return [(r['kind'], r['env']) for r in explore(stmts, atoms, names=names, upto=upto, max_paths=max_paths)]
+
+
+def outcomes_by_case(stmts, cases, atom, facts=None, on_node=None):
+    """Abstract interpretation of a small decision procedure: for every abstract case (dict of symbol -> int/bool) the feasible paths of
+    `stmts` are followed with each test evaluated on the case (comparison predicates over the named atoms, via domains.eval_pred) or,
+    failing that, on `facts` ({source: bool}) / constants assigned on the path.  Yields (case, outcomes) where outcomes is a set of
+    ('return', value) / ('raise', None) / (terminal kind, None); value is the boolean / constant the return expression evaluates to on the case,
+    or its source text when it is not a predicate over the atoms.  on_node(node) -> label lets a rule record that a statement was passed:
+    the labels are added as ('passed', label) outcomes of the path."""
+    from .cfg import CFG, eval3, UNK
+    from .domains import eval_pred
+    cfg = CFG(stmts, exceptions=False)
+    base = mk_atoms(facts or {})
+    for case in cases:
+        def ev(e, cenv):
+            v = eval3(e, cenv, base)
+            if v is not UNK:
+                return v
+            try:
+                return eval_pred(e, case, atom)
+            except Exception:
+                return UNK
+
+        def step(state, node, label, case=case):
+            cenv, last, passed = state
+            if node.kind == 'test' and label in ('true', 'false') and isinstance(node.ast, (ast.If, ast.While)):
+                v = ev(node.ast.test, cenv)
+                if v is not UNK and bool(v) != (label == 'true'):
+                    return None
+            if on_node is not None:
+                lab = on_node(node)
+                if lab is not None:
+                    passed = passed | {lab}
+            if node.kind == 'stmt' and isinstance(node.ast, ast.Assign):
+                cenv = dict(cenv)
+                for t in node.ast.targets:
+                    if isinstance(t, ast.Name):
+                        val = node.ast.value
+                        cenv[t.id] = val.value if isinstance(val, ast.Constant) else UNK
+                    else:
+                        for n in ast.walk(t):
+                            if isinstance(n, ast.Name) and isinstance(n.ctx, ast.Store):
+                                cenv[n.id] = UNK
+            if node.kind == 'stmt' and isinstance(node.ast, (ast.Return, ast.Raise)):
+                last = (node.ast, cenv)
+            return (cenv, last, passed)
+        outs = set()
+        for p, (cenv, last, passed) in cfg.paths(state0=({}, None, frozenset()), step=step):
+            kind = cfg.nodes[p[-1][0]].info
+            if kind == 'return' and last is not None and isinstance(last[0], ast.Return):
+                rv = last[0].value
+                if rv is None:
+                    val = None
+                else:
+                    val = ev(rv, last[1])
+                    if val is UNK:
+                        val = src(rv)
+                outs.add(('return', val))
+            else:
+                outs.add((kind, None))
+            for lab in passed:
+                outs.add(('passed', lab))
+        yield case, outs
